@@ -189,24 +189,28 @@ def run_job_inner(job):
             except StopIteration:
                 return
             state["idem"] += 1
+            saved = {k: rule.__dict__.pop(k) for k in ("fix", "analyze", "_get_tokens_of_interest") if k in rule.__dict__}
+            had = rule.had_violations
             try:
-                saved = (rule.fix, rule.analyze, getattr(rule, "_get_tokens_of_interest", None), o.update)
-                # un-instrumented call on a copy
-                o2 = copy.copy(o)
-                o2.lAllObjects = copy.deepcopy(o.lAllObjects)
                 from vsg.token_map import process_tokens
 
+                o2 = copy.copy(o)
+                for k in ("update", "fix_blank_lines", "update_token_map"):
+                    o2.__dict__.pop(k, None)
+                o2.lAllObjects = copy.deepcopy(o.lAllObjects)
                 o2.oTokenMap = process_tokens(o2.lAllObjects)
-                o2.update = type(o).update.__get__(o2)
                 before = [(type(t), t.get_value()) for t in o2.lAllObjects]
-                type(rule).fix(rule, o2, job.get("fix_only"))
+                rule.fix(o2, job.get("fix_only"))
                 after = [(type(t), t.get_value()) for t in o2.lAllObjects]
-                rule.had_violations = True
                 if before != after:
                     k = next((i for i, (a, b) in enumerate(zip(before, after)) if a != b), min(len(before), len(after)))
-                    fails.append({"prop": "C10", "site": _W["owner"].get(st.rule, st.rule), "kind": "secondFixChanges", "detail": "%s: first difference at token %d: %r -> %r" % (st.rule, k, [x[1] for x in before[k : k + 3]], [x[1] for x in after[k : k + 3]]), "input": describe(job, style, dicts, text)})
+                    fails.append({"prop": "C10", "site": _W["owner"].get(st.rule, st.rule), "kind": "secondFixChanges", "detail": "%s: first difference at token %d: %r -> %r" % (st.rule, k, [x[1] for x in before[k : k + 4]], [x[1] for x in after[k : k + 4]]), "input": describe(job, style, dicts, text)})
             except Exception as e:  # noqa: BLE001
-                fails.append({"prop": "C10", "site": _W["owner"].get(st.rule, st.rule), "kind": "secondFixRaised", "detail": repr(e), "input": describe(job, style, dicts, text)})
+                fails.append({"prop": "C10", "site": _W["owner"].get(st.rule, st.rule), "kind": "secondFixRaised", "detail": "%s: %r" % (st.rule, e), "input": describe(job, style, dicts, text)})
+            finally:
+                rule.__dict__.update(saved)
+                rule.had_violations = had
+                rule.violations = []
 
     steps, exc, ser = vsgrun.instrumented_fix(o, rl, ci, fix_phase=job.get("fix_phase", 7), skip_phase=job.get("skip_phase"), fix_only=job.get("fix_only"), on_step=on_step)
     out["tois"] = state["tois"]
@@ -330,6 +334,9 @@ def cached_sweep(tier, features=("trace",), limit=None):
     agg = run_jobs(jobs)
     agg["from_cache"] = False
     agg["njobs"] = len(jobs)
+    agg["repo_hash"] = common.tree_hash(repo_only=True)
+    agg["seed"] = common.seed()
+    agg["tier"] = tier
     os.makedirs(common.CACHE, exist_ok=True)
     tmp = path + ".%d.tmp" % os.getpid()
     with open(tmp, "w") as f:
